@@ -144,6 +144,11 @@ class C16(HsProp):
             for cut2 in range(cut1 + 1, min(len(data), cut1 + 9)):
                 out.append(gen_hs.hc_case('hb%d' % k, b'ws://example.com/', ops=['r', 'r'],
                                           rds=['d:' + hx(data[:cut1]), 'd:' + hx(data[cut1:cut2]), 'd:' + hx(data[cut2:])])); k += 1
+        # frame bytes arriving with the head while read_buffer_size is smaller than that tail
+        for rbs in (0, 1, 8, 64):
+            big = ws.encode_frame(2, bytes(range(100)))
+            out.append(gen_hs.hc_case('ht%d' % k, b'ws://example.com/', ops=['r', 'r', 'r'],
+                                      rds=['d:' + hx(gen_hs.response_bytes([(b'Upgrade', b'websocket'), (b'Connection', b'Upgrade'), (b'Sec-WebSocket-Accept', gen_hs.ACCEPT_MARK)]) + frame1 + big + frame2)], rbs=rbs)); k += 1
         # extra headers that clash with the mandatory ones (any case): the URL-derived / generated values must win
         resp0 = gen_hs.response_bytes([(b'Upgrade', b'websocket'), (b'Connection', b'Upgrade'), (b'Sec-WebSocket-Accept', gen_hs.ACCEPT_MARK)])
         for extra in ([(b'Host', b'evil.example')], [(b'sec-websocket-key', b'Zml4ZWRmaXhlZGZpeGVkZg==')], [(b'UPGRADE', b'h2c')],
